@@ -407,7 +407,7 @@ pub fn run_trait_level(rep: &mut Report, tier: Tier, seed: u64) {
     if rep.failed() {
         return;
     }
-    let r = engine::explore("C05", "trait-fault", seed, tier.pick(3000, 80_000), fcase, check);
+    let r = engine::explore("C05", "trait-fault", seed, tier.pick(9000, 80_000), fcase, check);
     rep.absorb("trait-faults-generated", r);
 }
 
